@@ -67,6 +67,7 @@ class StateProbe(StateHook):
 
     def hook(self, module):
         self._plog.append(self._tag)
+        return torch.full((1,), 9.0)  # a status value; documented: a state hook only acts on module state, "any output will be ignored"
 
 
 class St:
@@ -161,7 +162,11 @@ class HookSystem:
         exp_log = None
         try:
             if name == "call":
-                st.m(torch.zeros(1))
+                xin = torch.zeros(1)
+                yout = st.m(xin)
+                if check and (not torch.is_tensor(yout) or not torch.equal(yout, torch.zeros(1)) or not torch.equal(xin, torch.zeros(1))):
+                    bad.append(("call:module-io-altered-by-hook", f"the module returned {yout!r} for a zero input (forward is the identity; a state hook's "
+                                "return value must be ignored)", [0.0], yout.tolist() if torch.is_tensor(yout) else repr(yout)))
                 fire = self.armed(st)
                 if self.is_clamp:
                     exp_log = ["clamped"] if fire else []
